@@ -1,10 +1,12 @@
 """C16  Class/style helpers and css() act as token-set and declaration algebra."""
 from __future__ import annotations
 
+import copy as pycopy
 import html as pyhtml
 import itertools
 import json
 import os
+import zlib
 
 from .. import common
 from ..common import Ctx, S, unS, run_model, VERIF
@@ -129,7 +131,22 @@ def build_tag(init):
 def run_history(ctx, case):
     """returns (observations, notes) ; the oracle runs on the way"""
     init, ops = case
-    t = build_tag(init)
+    # the tag the history runs on is reached by one of five routes (decided by the case itself, so that a
+    # replay takes the same one): built directly; a copy.copy / tagify() of a built tag, with that tag as a
+    # bystander; the built tag itself, with a copy.copy / tagify() of it as a bystander.  The helpers act on
+    # the tag they are called on: a bystander never changes.
+    route = zlib.crc32(common.canon(case).encode("utf-8", "surrogatepass")) % 5
+    base = build_tag(init)
+    t, by = base, None
+    if route == 1:
+        t, by = pycopy.copy(base), base
+    elif route == 2:
+        t, by = base.tagify(), base
+    elif route == 3:
+        by = pycopy.copy(base)
+    elif route == 4:
+        by = base.tagify()
+    by0 = items_of(by) if by is not None else None
     want0 = [[k, v[0], v[1]] for k, v in init]
     if items_of(t) != want0:
         return [("build", items_of(t))]
@@ -173,6 +190,13 @@ def run_history(ctx, case):
         else:
             r = safe_call(lambda: t.add_style(mk(op[1]), prepend=op[2]))
         post = items_of(t)
+        if by is not None and items_of(by) != by0:
+            ctx.violation(f"{kind}: changed the class/style of ANOTHER tag (a copy.copy / tagify() of the same tag, or the "
+                          "tag it was copied from): has_class / tokens of a tag that never received the operation differ",
+                          case, {"route": ["direct", "copy.copy(tag)", "tag.tagify()", "tag, bystander copy.copy(tag)",
+                                           "tag, bystander tag.tagify()"][route],
+                                 "bystander_before": by0, "bystander_after": items_of(by)})
+            by0 = items_of(by)
         if r[0] == "ok":
             obs.append(["st", post])
             if r[1] is not t:
@@ -408,6 +432,10 @@ def exhaustive_histories(maxlen):
     ops = [("add", ("S", "foo"), True), ("add", ("S", "foo"), False), ("add", ("S", "foobar"), False),
            ("rm", "foo"), ("rm", "foobar"), ("has", "foo"), ("sty", ("S", "a:b;"), False),
            ("sty", ("S", "a:b"), True)]
+    # a tag with no attribute at all
+    for n in range(1, min(maxlen, 3) + 1):
+        for seq in itertools.product(ops, repeat=n):
+            yield ([], list(seq))
     for i in inits:
         init = [("id", ("S", "i"))] + ([] if i is None else [("class", ("S", i))])
         for n in range(1, maxlen + 1):
